@@ -391,6 +391,8 @@ def public_cfg(cfg):
 
 # ------------------------------------------------------------------ one configuration
 ENV_KW = {"timer_policy": "when", "order": ("start", "ext", "timer")}
+WATCHDOG_S = 5       # an execution takes milliseconds; a callback that runs for seconds never yields
+_SPUN = False        # this worker has already seen a spinning callback: later ones are given 1 s only
 
 
 def explore(task):
@@ -414,6 +416,9 @@ def explore(task):
     by_dev = {}
 
     def on_exec(env, w, info):
+        global _SPUN
+        if info["outcome"] == "spin":
+            _SPUN = True
         if cfg.get("count_dev") is not None and info["deviations"] != cfg["count_dev"]:
             return          # already counted by the run with the smaller deviation bound
         counts["schedules"] += 1
@@ -474,7 +479,8 @@ def explore(task):
     def run_one(max_dev):
         ex = aio.Explorer(
             make, on_exec, observe=observe, max_choices=cfg.get("max_choices", 120), max_deviations=max_dev,
-            validate_mod=cfg.get("val_mod", 0), deadline=cfg.get("deadline"), on_step=on_step, watchdog_s=20,
+            validate_mod=cfg.get("val_mod", 0), deadline=cfg.get("deadline"), on_step=on_step,
+            watchdog_s=1 if _SPUN else WATCHDOG_S,
             granularity=cfg.get("granularity", "quiescence"), max_handles=cfg.get("max_handles", 20000), **ENV_KW)
         return ex.run()
 
